@@ -2569,6 +2569,16 @@ mod srvlevel {
             Some("1") => true,
             _ => return (line.to_string(), "bad-op".into(), vec![]),
         };
+        // `facfail=1`: worker 0 dies and the factory fails when the server tries to replace it (logged; the server goes on with
+        // worker 1); then worker 1 dies: it is replaced all the same and service resumes — the Server future has not ended
+        let facfail = match kv(&ws, "facfail") {
+            None => false,
+            Some("1") => true,
+            _ => return (line.to_string(), "bad-op".into(), vec![]),
+        };
+        if facfail && (!exact || kill != 0 || faults != 1 || with_stop || pair || dropsrv || busystop || hold || sat || pausedrep) {
+            return (line.to_string(), "bad-op".into(), vec![]);
+        }
         if pausedrep && (workers != 2 || limit != Some(1) || kill != 0 || faults != 1 || with_stop || pair || dropsrv || busystop || hold || sat) {
             return (line.to_string(), "bad-op".into(), vec![]);
         }
@@ -2647,6 +2657,82 @@ mod srvlevel {
             answers.push(ask(addr, w).await);
             answers.push(ask(addr, w).await);
             let mut drop_srv = Some(drop_srv);
+            if facfail {
+                std::mem::forget(drop_srv.take());
+                // worker 0 dies; the restart that its discovery triggers fails
+                let calls0 = shared.factory_calls.load(Ordering::SeqCst);
+                shared.fail_factory.store(true, Ordering::SeqCst);
+                shared.kill_target.store(1, Ordering::SeqCst);
+                let mut killed = Some(b'?');
+                for _ in 0..6 {
+                    let r = ask(addr, Duration::from_millis(1500)).await;
+                    if !shared.killed_gens.lock().unwrap().is_empty() {
+                        killed = r;
+                        break;
+                    }
+                }
+                let t = Instant::now();
+                let mut between = vec![];
+                while shared.factory_calls.load(Ordering::SeqCst) == calls0 && t.elapsed() < Duration::from_secs(10) {
+                    between.push(ask(addr, w).await);
+                    tokio::time::sleep(Duration::from_millis(25)).await;
+                }
+                let failed = shared.factory_calls.load(Ordering::SeqCst) > calls0 && !shared.fail_factory.load(Ordering::SeqCst);
+                tokio::time::sleep(Duration::from_millis(400)).await;
+                // a restart that failed is no reason for the Server future to end
+                let running = matches!(srv_done.try_recv(), Err(tokio::sync::oneshot::error::TryRecvError::Empty));
+                if failed && !running {
+                    fails.push("[C08] the Server future ended because the restart of a faulted worker failed (the factory could not make the service): a failed restart is logged, the server goes on with the workers it has and still replaces workers that die later".into());
+                }
+                for (k, r) in between.iter().enumerate() {
+                    if r.is_none() {
+                        fails.push(format!("[C08,C01] connection #{k} made after worker 0 had died was not served although worker 1 is alive"));
+                    }
+                }
+                // then the other worker dies: replaced (instance 3), service resumes
+                shared.kill_target.store(2, Ordering::SeqCst);
+                let mut killed2 = Some(b'?');
+                for _ in 0..6 {
+                    let r = ask(addr, Duration::from_millis(1500)).await;
+                    if shared.killed_gens.lock().unwrap().len() >= 2 {
+                        killed2 = r;
+                        break;
+                    }
+                }
+                let t = Instant::now();
+                while shared.instances.load(Ordering::SeqCst) < 3 && t.elapsed() < Duration::from_secs(10) {
+                    let _ = ask(addr, Duration::from_millis(300)).await;
+                    tokio::time::sleep(Duration::from_millis(25)).await;
+                }
+                let replaced2 = shared.instances.load(Ordering::SeqCst) >= 3;
+                tokio::time::sleep(Duration::from_millis(300)).await;
+                let mut later2 = vec![];
+                for _ in 0..4 {
+                    later2.push(ask(addr, if replaced2 { w } else { Duration::from_millis(500) }).await);
+                }
+                if failed && !replaced2 {
+                    fails.push("[C08] worker 1 died after the restart of worker 0 had failed: it was not replaced within 10 s — every fault is followed by a restart attempt, whatever happened to earlier ones".into());
+                }
+                if failed && later2.iter().any(|x| x.is_none()) {
+                    fails.push(format!("[C08,C01] after worker 1 had died (the earlier restart of worker 0 had failed) connections were not served any more (answers {:?}): service never resumed", later2.iter().map(|x| x.map(|b| b as char)).collect::<Vec<_>>()));
+                }
+                if running {
+                    stop_bounded(&handle, srv_done).await;
+                } else {
+                    let _ = tokio::time::timeout(Duration::from_secs(2), handle.stop(false)).await;
+                }
+                return format!(
+                    "before={}{} killed={} restart-failed={} server-running={} killed2={} replaced2={} later2-all-served={}",
+                    show(answers[0]),
+                    show(answers[1]),
+                    show(killed),
+                    failed as u8,
+                    running as u8,
+                    show(killed2),
+                    replaced2 as u8,
+                    later2.iter().all(|x| x.is_some()) as u8
+                );
+            }
             if pausedrep {
                 std::mem::forget(drop_srv.take());
                 tokio::time::sleep(Duration::from_millis(200)).await;
@@ -3717,6 +3803,8 @@ mod gen {
             writeln!(w, "fault fg signals=1").unwrap();
             // the replacement comes up while the server is paused and is in the rotation after resume
             writeln!(w, "fault fz limit=1 pausedrep=1").unwrap();
+            // a restart fails (the factory cannot make the service): logged; the next fault, of the other worker, is still replaced
+            writeln!(w, "fault ff facfail=1").unwrap();
             // the same under an actix System (workers on Arbiters): a worker that dies saturated takes its arbiter — and the
             // connections on it — with it; that is how it is found
             writeln!(w, "fault fhs workers=1 limit=1 kill=ready hold=1 sys=1").unwrap();
@@ -3725,6 +3813,8 @@ mod gen {
                 writeln!(w, "fault fg2 signals=1 faults=2 pair=1 limit=1").unwrap();
                 writeln!(w, "fault fg3 signals=1 stop=1").unwrap();
                 writeln!(w, "fault fs1 sys=1 kill=restart").unwrap();
+                writeln!(w, "fault ff2 facfail=1 sys=1").unwrap();
+                writeln!(w, "fault ff3 facfail=1 signals=1").unwrap();
                 writeln!(w, "fault fs2 sys=1 limit=1 faults=2 pair=1").unwrap();
                 writeln!(w, "fault fs3 sys=1 stop=1").unwrap();
                 writeln!(w, "fault fs4 sys=1 limit=1 sat=1").unwrap();
